@@ -185,7 +185,8 @@ fn format_variant(
                             None => {
                                 let ty = field_attr.type_as(&field.ty);
                                 if field_attr.inline {
-                                    quote!(<#ty as #crate_rename::TS>::inline())
+                                    // the inlined type may be a union, and `&` binds tighter than `|`
+                                    quote!(format!("({})", <#ty as #crate_rename::TS>::inline()))
                                 } else {
                                     quote!(<#ty as #crate_rename::TS>::name())
                                 }
